@@ -43,7 +43,36 @@
    [Model.tinv_b] (theorem C07_term_lift_inv: pairwise distinct terminal ids and VALUES -- two slots
    with one value break hash consing --, every handle and child edge names a listed terminal);
    values and reference counts are audited by the DD driver on the same trace (sequential
-   specification of every result, terminals surviving / missing after gc). *)
+   specification of every result, terminals surviving / missing after gc).
+
+   C07t -- replay of the terminal manager's events (case parameter tt=1, kinds mtbdd / mtbddf; hook
+   commit "verif hooks: terminal manager events"): the harness logs, for the WHOLE case, every
+   `get_edge` (EV TF found id hash / TN new id hash / TO out of memory), every reference count
+   increment (TR, after the `fetch_add`) and decrement (TD, before the `fetch_sub`) of a terminal, the
+   terminal manager's collection (TB, TX removed id, TE) and every item of the terminal iterator (TI),
+   inside parallel blocks in one total order with the table and cache events, outside the blocks
+   together with the cache hits (CH) and the collector's phase events (CP CL GB CU GE) before the line
+   of the operation / snapshot that caused them.  They are replayed by the extracted [Model.ystep] of
+   coq/Mgr/ConcTermLog.v, the log-level projection of [xstep false] of coq/Mgr/ConcTerm.v (theorems
+   C07_term_log_sim / _trace_sim: it accepts the log of every behaviour of the proved interleaving
+   model; C07_term_log_inv: whatever it accepts keeps ids and values pairwise distinct and the free
+   chain disjoint), starting from [Model.yinit tcap] = the new manager:
+     - `found` of a value the replayed table does not hold under that id (a collected slot)
+     - a new id that is in use, or a second slot for a stored value
+     - an increment of a terminal that is not stored, or with no counted edge to it unless a `found`, a
+       cache hit or the iterator announced it; a decrement without a counted edge; an announced
+       increment that does not come (an edge handed out without being counted)
+     - a removal of a terminal with a counted edge, or a scan / removal outside the sweep phase
+       (terminals may only be collected between pre_gc and post_gc)
+     - a cache hit whose value edge names a collected terminal
+   are violations (kind=prop; prop=C07 inside a parallel block, prop=C05 outside); a new id that is
+   not the head of the model's free chain is kind=corr.  At every snapshot the replayed table must
+   equal the lifted snapshot ([Model.ymatch_b], theorems C07_term_log_match_lift / _match_proj): the
+   same ids, count = handles + child edges of stored nodes for every terminal (the implementation's
+   terminal counts are not readable, the replayed ones are the logged increments / decrements), no
+   increment owed; and slot |-> value must agree with hash |-> value string of all earlier snapshots.
+   While the replay is active [terms] follows the replayed table, so that the table and cache replay
+   above also see a child / operand / value edge to a collected terminal. *)
 open Conv
 
 (* ---- trace parsing (the parts of ocaml/dd_types.ml needed here; that file depends on the
@@ -58,7 +87,9 @@ let show_phase = function
   | Model.GIdle -> "idle" | Model.GLock -> "pre_gc" | Model.GSweep -> "sweep" | Model.GUnlock -> "post_gc"
 let kind_of = function
   | "bdd" -> Model.KBdd | "bcdd" -> Model.KBcdd | "zbdd" -> Model.KZbdd
-  | "mtbdd" -> Model.KMtbdd | "tdd" -> Model.KTdd | k -> failwith ("kind " ^ k)
+  | "mtbdd" | "mtbddf" -> Model.KMtbdd | "tdd" -> Model.KTdd | k -> failwith ("kind " ^ k)
+let show_tphase = function
+  | Model.PIdle -> "idle" | Model.PLock -> "pre_gc" | Model.PSweep -> "sweep" | Model.PUnlock -> "post_gc" | Model.PLate -> "late"
 (* MTBDD / TDD terminal values: interned in order of first appearance (only equality matters) *)
 let interned : (string, int) Hashtbl.t = Hashtbl.create 64
 let term_code kname (v : string) : int =
@@ -66,7 +97,7 @@ let term_code kname (v : string) : int =
   | "bdd", "False" -> 0 | "bdd", "True" -> 1
   | "bcdd", _ -> 1
   | "zbdd", "Empty" -> 0 | "zbdd", "Base" -> 1
-  | ("mtbdd" | "tdd"), _ ->
+  | ("mtbdd" | "mtbddf" | "tdd"), _ ->
     (match Hashtbl.find_opt interned v with
      | Some c -> c
      | None -> let c = Hashtbl.length interned in Hashtbl.add interned v c; c)
@@ -132,7 +163,9 @@ let () =
         stat "bad_C07" 1;
         if not !failed then (failed := true; verdict_bad c step kind ("prop=C07 " ^ msg)) in
       let show_id p = "n" ^ Z.to_string (Z.pred (z_of_pos p)) in
-      let dyn_terms = (kname = "mtbdd") in
+      let dyn_terms = (kname = "mtbdd" || kname = "mtbddf") in
+      (* C07t: the terminal manager's events are in the log *)
+      let tt = dyn_terms && param c "tt" = Some "1" in
       let is_term (id : string) =
         if dyn_terms then (match int_of_string_opt id with Some i -> i < mtbdd_terminal_bound | None -> false)
         else List.exists (fun (t, _) -> string_of_n t = id) !terms in
@@ -140,7 +173,7 @@ let () =
         | id :: tag :: r ->
           let e = if is_term id then Model.RT (n_of_string id) else Model.RN (pos_of_z (Z.succ (Z.of_string id))) in
           (* C07m: terminals come and go without events: a terminal id an event names counts as stored *)
-          if dyn_terms && is_term id && not (List.exists (fun (t, _) -> string_of_n t = id) !terms) then (
+          if dyn_terms && not tt && is_term id && not (List.exists (fun (t, _) -> string_of_n t = id) !terms) then (
             stat "ev_terminal_ids_first_seen_in_events" 1;
             terms := (n_of_string id, n_of_int (1_000_000_000 + int_of_string id)) :: !terms);
           { Model.eref = e; Model.etag = (tag <> "0") } :: edges r
@@ -182,6 +215,193 @@ let () =
               fail step "prop" (Printf.sprintf "terminal table %s: a handle or a stored node refers to terminal t%s, which the terminal manager does not hold (dangling edge to a collected terminal)" where (string_of_n x))
             | None -> fail step "corr" "driver: counts_exact_b false on a lifted snapshot")
           else fail step "corr" "driver: tinv_b false on a lifted snapshot") in
+      (* ---- C07t: replay of the terminal manager's events by the extracted [Model.ystep] ---- *)
+      let ty : Model.yst ref =
+        ref (Model.yinit (nat (if tt then min mtbdd_terminal_bound (param_int c "tcap" 4096) else 0))) in
+      let t_events = ref 0 in
+      let t_locked = ref 0 and t_nb = ref (-1) in     (* buckets pre_gc has locked / buckets of the cache *)
+      let hv : (string, string) Hashtbl.t = Hashtbl.create 64 and vh : (string, string) Hashtbl.t = Hashtbl.create 64 in
+      let tprop () = if !in_par then "C07" else "C05" in
+      let tstat k = stat k 1; if !in_par then stat (k ^ "_in_blocks") 1 in
+      let failt step kind msg =
+        stat ("bad_" ^ tprop ()) 1;
+        if not !failed then (failed := true; verdict_bad c step kind ("prop=" ^ tprop () ^ " " ^ msg)) in
+      let tn x = "t" ^ string_of_n x in
+      let ydo l = match Model.ystep !ty l with Some y' -> ty := y'; true | None -> false in
+      let tnode x = Model.tfind !ty.Model.y_tt x in
+      let owes t = Model.yowes !ty.Model.y_pend t in
+      let owed t = String.concat " " (List.filter_map (fun (t', x) -> if t' = t then Some (tn x) else None) !ty.Model.y_pend) in
+      let where () = if !in_par then "inside the parallel block" else "in the sequential part" in
+      let phase_rule = "terminals may only be collected between pre_gc and post_gc, while every apply cache bucket is cleared and locked" in
+      let yphase step l = if not (ydo l) then failt step "corr" (Printf.sprintf "driver: the collector's phase events do not follow the model's phases (terminal replay in phase %s)" (show_tphase !ty.Model.y_ph)) in
+      let term_event step (toks : string list) : bool =
+        if not tt then false
+        else match toks with
+          | "EV" :: ("TF" | "TN" as ev) :: t :: id :: h :: _ ->
+            incr t_events; tstat (if ev = "TF" then "ev_term_get_found" else "ev_term_get_new");
+            let t = nat (int_of_string t) and x = n_of_string id and v = n_of_string h in
+            let stored_as = Model.tfind_val !ty.Model.y_tt v in
+            if ev = "TF" then (
+              if not (ydo (Model.YFound (t, v, x))) then (
+                if owes t then failt step "prop" (Printf.sprintf "get_terminal finds %s while the thread still owes the reference count increment of %s (an edge was handed out without being counted)" (tn x) (owed t))
+                else match stored_as, tnode x with
+                  | Some x', _ -> failt step "prop" (Printf.sprintf "get_terminal found %s for a value that the replayed table holds as %s (two slots for one value: hash consing broken)" (tn x) (tn x'))
+                  | None, Some _ -> failt step "prop" (Printf.sprintf "get_terminal found %s for the value with hash %s, but the replayed table holds another value in that slot (the slot was collected and reused while the unique table kept the stale entry)" (tn x) h)
+                  | None, None -> failt step "prop" (Printf.sprintf "get_terminal found %s, which the replayed table does not hold: a `found` of a collected slot" (tn x))))
+            else (
+              if not (ydo (Model.YNew (t, v, x))) then (
+                if owes t then failt step "prop" (Printf.sprintf "get_terminal inserts %s while the thread still owes the reference count increment of %s" (tn x) (owed t))
+                else match stored_as, tnode x, !ty.Model.y_free with
+                  | Some x', _, _ -> failt step "prop" (Printf.sprintf "get_terminal inserted a value under the new id %s although it is stored as %s (duplicate terminal: hash consing broken)" (tn x) (tn x'))
+                  | None, Some nd, _ -> failt step "prop" (Printf.sprintf "get_terminal took the new id %s, which is in use (the slot holds a terminal with %s counted edges)" (tn x) (string_of_n nd.Model.tn_rc))
+                  | None, None, [] -> failt step "corr" (Printf.sprintf "get_terminal took the new id %s but the model's free chain is empty (OutOfMemory expected)" (tn x))
+                  | None, None, hd :: _ -> failt step "corr" (Printf.sprintf "get_terminal took the new id %s but the head of the model's free chain is %s" (tn x) (tn hd)))
+              else if not (List.exists (fun (i, _) -> i = x) !terms) then terms := (x, v) :: !terms);
+            true
+          | "EV" :: "TO" :: t :: h :: _ ->
+            incr t_events; tstat "ev_term_get_oom";
+            let t = nat (int_of_string t) and v = n_of_string h in
+            if not (ydo (Model.YOom (t, v))) then (
+              match Model.tfind_val !ty.Model.y_tt v, !ty.Model.y_free with
+              | Some x', _ -> failt step "prop" (Printf.sprintf "get_terminal failed with OutOfMemory although the value is stored as %s" (tn x'))
+              | None, hd :: _ -> failt step "prop" (Printf.sprintf "get_terminal failed with OutOfMemory although slot %s is free (%d free slots in the replayed table)" (tn hd) (List.length !ty.Model.y_free))
+              | None, [] -> failt step "prop" (Printf.sprintf "get_terminal runs while the thread still owes the reference count increment of %s" (owed t)));
+            true
+          | "EV" :: ("TR" | "TD" as ev) :: t :: id :: _ ->
+            incr t_events; tstat (if ev = "TR" then "ev_term_retain" else "ev_term_release");
+            let t = nat (int_of_string t) and x = n_of_string id in
+            let announced = owes t in
+            if ev = "TR" then (
+              if announced then tstat "ev_term_retain_announced";
+              if not (ydo (Model.YRetain (t, x))) then (
+                match tnode x with
+                | None -> failt step "prop" (Printf.sprintf "reference count increment of %s, which is not stored (an edge to a collected terminal is cloned%s)" (tn x) (if announced then "; it was handed out by a `found` / cache hit / iterator item" else ""))
+                | Some _ when announced -> failt step "prop" (Printf.sprintf "the thread increments %s but owes the increment of %s (announced by a `found` / cache hit / iterator item)" (tn x) (owed t))
+                | Some _ -> failt step "prop" (Printf.sprintf "reference count increment (clone_edge) of %s although no counted edge to it exists (replayed count 0: only the unique table refers to it)" (tn x))))
+            else (
+              if not (ydo (Model.YRelease (t, x))) then (
+                if announced then failt step "prop" (Printf.sprintf "the thread releases %s while it still owes the reference count increment of %s: an edge was handed out (by get_terminal / a cache hit / the terminal iterator) without being counted" (tn x) (owed t))
+                else match tnode x with
+                  | None -> failt step "prop" (Printf.sprintf "release of %s, which is not stored (dangling edge to a collected terminal)" (tn x))
+                  | Some _ -> failt step "prop" (Printf.sprintf "release of %s although no counted edge to it exists (replayed count 0: the count drops below the unique table's own reference)" (tn x))));
+            true
+          | "EV" :: "TI" :: t :: id :: _ ->
+            incr t_events; tstat "ev_term_iter";
+            let t = nat (int_of_string t) and x = n_of_string id in
+            if not (ydo (Model.YIter (t, x))) then (
+              if owes t then failt step "prop" (Printf.sprintf "the terminal iterator yields %s while the thread still owes the reference count increment of %s: the previous item was handed out without being counted" (tn x) (owed t))
+              else failt step "prop" (Printf.sprintf "the terminal iterator yields %s, which is not stored" (tn x)));
+            true
+          | "EV" :: "TB" :: _ ->
+            incr t_events; tstat "ev_term_gc";
+            (* (the sweep phase begins when pre_gc has locked the last bucket; GC_BEGIN is only its first witness) *)
+            if !ty.Model.y_ph = Model.PLock && !t_nb >= 0 && !t_locked = !t_nb then yphase step Model.YSweep;
+            if not (ydo Model.YScan) then
+              failt step "prop" (Printf.sprintf "the terminal manager's collection starts %s in collector phase %s: %s" (where ()) (show_tphase !ty.Model.y_ph) phase_rule);
+            true
+          | "EV" :: "TX" :: _t :: id :: _ ->
+            incr t_events; tstat "ev_term_removed";
+            let x = n_of_string id in
+            if not (ydo (Model.YFree x)) then (
+              if !ty.Model.y_ph <> Model.PSweep then
+                failt step "prop" (Printf.sprintf "the terminal manager's collection removes %s %s in collector phase %s: %s" (tn x) (where ()) (show_tphase !ty.Model.y_ph) phase_rule)
+              else match tnode x with
+                | None -> failt step "prop" (Printf.sprintf "the terminal manager's collection removes %s, which is not stored" (tn x))
+                | Some nd -> failt step "prop" (Printf.sprintf "the terminal manager's collection removes %s although %s counted edge(s) refer to it (removal of a terminal with a counted edge)" (tn x) (string_of_n nd.Model.tn_rc)))
+            else terms := List.filter (fun (i, _) -> i <> x) !terms;
+            true
+          | "EV" :: "TE" :: _ -> incr t_events; true
+          | "EV" :: "CH" :: t :: _b :: na :: nv :: ids ->
+            (* the value edges of a hit are cloned next: the increments of the terminals among them are owed *)
+            let na = int_of_string na and nv = int_of_string nv in
+            let rec pairs = function id :: _tag :: r -> id :: pairs r | _ -> [] in
+            let vals = List.filteri (fun j _ -> j >= na && j < na + nv) (pairs ids) in
+            let xs = List.filter_map (fun id -> if is_term id then Some (n_of_string id) else None) vals in
+            let t = nat (int_of_string t) in
+            if xs <> [] then (
+              stat "ev_term_hit_value_edges" (List.length xs);
+              if not (ydo (Model.YHitVals (t, xs))) then (
+                if owes t then failt step "prop" (Printf.sprintf "apply cache hit while the thread still owes the reference count increment of %s" (owed t))
+                else match List.find_opt (fun x -> tnode x = None) xs with
+                  | Some x -> failt step "prop" (Printf.sprintf "apply cache hit hands out %s, which is not stored: the entry's weak value edge names a collected terminal" (tn x))
+                  | None -> failt step "corr" "driver: YHitVals refused"));
+            false
+          | "EV" :: "CP" :: _t :: n :: _ ->
+            t_nb := int_of_string n; t_locked := 0;
+            (* (a reordering ends with post_gc, without a GC_END event) *)
+            if !ty.Model.y_ph = Model.PUnlock && not !in_par then yphase step Model.YGcEnd;
+            if !ty.Model.y_ph = Model.PIdle then yphase step Model.YPreGc;
+            false
+          | "EV" :: "CL" :: _t :: _f :: cnt :: _ -> t_locked := !t_locked + int_of_string cnt; false
+          | "EV" :: "GB" :: _ ->
+            (* (inside a reordering the buckets stay locked over several collections: already in the sweep phase) *)
+            if !ty.Model.y_ph = Model.PLock then yphase step Model.YSweep;
+            false
+          | "EV" :: "CU" :: _ ->
+            if !ty.Model.y_ph = Model.PLock && not !in_par then yphase step Model.YSweep;      (* reordering without a collection *)
+            if !ty.Model.y_ph = Model.PSweep then yphase step Model.YPostGc;
+            false
+          | "EV" :: "GE" :: _ ->
+            if !ty.Model.y_ph = Model.PUnlock then yphase step Model.YGcEnd;
+            false
+          | _ -> false in
+      (* C07t: the replayed terminal table against the lifted snapshot *)
+      let match_terminals step (body : string) (snap_terms_s : (Model.n * string) list) =
+        let refs = ref [] in
+        let term_of e = match (parse_edge e).Model.eref with Model.RT x -> Some x | Model.RN _ -> None in
+        List.iter
+          (fun piece ->
+            match split_ws piece with
+            | "H" :: slot :: e :: _ ->
+              (match term_of e with Some x -> refs := (nat (int_of_string slot land 0xffff), x) :: !refs | None -> ())
+            | "N" :: _lvl :: _id :: _stored :: _rc :: ch ->
+              List.iter (fun e -> match term_of e with Some x -> refs := (nat 65536, x) :: !refs | None -> ()) ch
+            | _ -> ())
+          (split_bar body);
+        let ids = List.map fst snap_terms_s in
+        tstat "chk_term_replay_vs_snapshot";
+        stat "term_replay_terminals_compared" (List.length ids);
+        stat "term_replay_counted_edges_compared" (List.length !refs);
+        let y = !ty in
+        if !t_events = 0 && ids <> [] then
+          failt step "corr" "driver: the case carries tt=1 but the log holds no terminal manager event (hooks inactive?)"
+        (* (theorem C07_term_log_run_inv; evaluated where the free chain is short: quadratic) *)
+        else if List.length y.Model.y_free <= 64 && (stat "chk_term_replay_invariant" 1; not (Model.yinv_b y)) then
+          failt step "corr" "driver: yinv_b false on the replayed terminal table"
+        else if not (Model.ymatch_b y ids !refs) then (
+          let cnt x = List.length (List.filter (fun (_, z) -> z = x) !refs) in
+          match List.find_opt (fun x -> not (Model.stored_b y.Model.y_tt x)) ids with
+          | Some x -> failt step "corr" (Printf.sprintf "the manager lists %s, which the replayed terminal table does not hold" (tn x))
+          | None ->
+            match List.find_opt (fun (x, _) -> not (List.mem x ids)) y.Model.y_tt with
+            | Some (x, _) -> failt step "prop" (Printf.sprintf "the replayed terminal table holds %s (no removal was logged), but the manager does not list it" (tn x))
+            | None ->
+              match List.find_opt (fun (_, x) -> not (Model.stored_b y.Model.y_tt x)) !refs with
+              | Some (_, x) -> failt step "prop" (Printf.sprintf "a handle or a stored node refers to %s, which is not stored (dangling edge to a collected terminal)" (tn x))
+              | None ->
+                match List.find_opt (fun (x, nd) -> Z.to_int (z_of_n nd.Model.tn_rc) <> cnt x) y.Model.y_tt with
+                | Some (x, nd) ->
+                  failt step "prop" (Printf.sprintf "reference count of %s: the logged increments and decrements leave %s counted edge(s), the snapshot shows %d (handles + child edges of stored nodes): the count is not exact" (tn x) (string_of_n nd.Model.tn_rc) (cnt x))
+                | None ->
+                  match y.Model.y_pend with
+                  | (t, x) :: _ -> failt step "prop" (Printf.sprintf "at the snapshot thread %d still owes the reference count increment of %s (an edge was handed out without being counted)" (int_of_nat t) (tn x))
+                  | [] -> failt step "corr" "driver: ymatch_b false on the replayed terminal table")
+        else
+          (* slot |-> value (snapshot) against slot |-> hash (log): one value string per hash and vice versa *)
+          List.iter
+            (fun (x, vs) ->
+              match tnode x with
+              | None -> ()
+              | Some nd ->
+                let h = string_of_n nd.Model.tn_val in
+                (match Hashtbl.find_opt hv h, Hashtbl.find_opt vh vs with
+                 | None, None -> Hashtbl.replace hv h vs; Hashtbl.replace vh vs h
+                 | Some vs', _ when vs' <> vs ->
+                   failt step "prop" (Printf.sprintf "%s holds the value %s, but the value logged for this slot (hash %s) was %s at an earlier snapshot: the slot's value changed without an event" (tn x) vs h vs')
+                 | _, Some h' when h' <> h ->
+                   failt step "prop" (Printf.sprintf "%s holds the value %s with hash %s, but this value had the hash %s earlier: the slot's value changed without an event" (tn x) vs h h')
+                 | _ -> ()))
+            snap_terms_s in
       let shape_list (t : Model.ctable) =
         List.sort compare
           (List.map (fun (id, nd) ->
@@ -189,7 +409,10 @@ let () =
       List.iteri
         (fun i l ->
           let ops, res = split_arrow l in
-          match split_ws ops with
+          let toks = split_ws ops in
+          if (match toks with "EV" :: _ -> term_event i toks | _ -> false) then ()
+          else
+          match toks with
           | [ "SNAP" ] ->
             (try
                let snap_tbl, snap_terms, snap_nl = parse_snapshot kname res in
@@ -203,6 +426,10 @@ let () =
                      (Printf.sprintf "table after the parallel block differs from the replayed log: only in the model {%s}, only in the manager {%s}"
                         (String.concat " " (List.map show (only a b))) (String.concat " " (List.map show (only b a))))));
                if dyn_terms then audit_terminals i res snap_terms !replayed;
+               if tt then
+                 match_terminals i res
+                   (List.filter_map (fun piece -> match split_ws piece with
+                        | "T" :: id :: v -> Some (n_of_string id, String.concat " " v) | _ -> None) (split_bar res));
                table := snap_tbl; terms := snap_terms; nl := snap_nl;
                valid := true; replayed := false
              with Failure m -> fail i "corr" ("driver: " ^ m))
@@ -217,7 +444,7 @@ let () =
           | "EVSTAT" :: kv ->
             List.iter (fun t -> match String.split_on_char '=' t with
                 | [ s; v ] -> stat ("site_" ^ s) (int_of_string v) | _ -> ()) kv
-          | "EV" :: "G" :: _tid :: lvl :: nf :: id :: ch when !valid ->
+          | "EV" :: "G" :: _tid :: lvl :: nf :: id :: ch when !valid && !in_par ->
             stat "ev_goi" 1;
             let chl = edges ch in
             let pid = pos_of_z (Z.succ (Z.of_string id)) in
@@ -251,7 +478,7 @@ let () =
                 | _, "new", Some r when r = pid -> stat "ev_goi_new" 1; table := t'
                 | _, "found", Some r when r = pid -> stat "ev_goi_found" 1; table := t'
                 | _ -> fail i "corr" ("unexpected replay result for: " ^ l)))
-          | "EV" :: "R" :: _tid :: id :: _ when !valid ->
+          | "EV" :: "R" :: _tid :: id :: _ when !valid && !in_par ->
             stat "ev_gc_remove" 1;
             let pid = pos_of_z (Z.succ (Z.of_string id)) in
             (* the collector removes nodes only while it holds every cache bucket *)
@@ -267,7 +494,7 @@ let () =
                  fail i "prop" (Printf.sprintf "the collector removed %s, which is not stored" (show_id pid))
                else
                  fail i "prop" (Printf.sprintf "the collector removed %s although a stored node still refers to it" (show_id pid)))
-          | "EV" :: ("CP" | "CL" | "CU" | "GB" | "GE" | "CA" | "CH" as ev) :: _tid :: rest when !valid ->
+          | "EV" :: ("CP" | "CL" | "CU" | "GB" | "GE" | "CA" | "CH" as ev) :: _tid :: rest when !valid && !in_par ->
             let st = { !cs with Model.lt = !table } in
             let ph = st.Model.lph and next = int_of_nat st.Model.lnext in
             let run a = Model.clstep k !terms (nat !nl) st a in
@@ -339,7 +566,7 @@ let () =
                | _ -> fail i "corr" ("driver: malformed cache event: " ^ l)
              with Failure m -> fail i "corr" ("driver: " ^ m ^ " in: " ^ l));
             ignore ints
-          | "EV" :: _ -> stat "ev_skipped" 1
+          | "EV" :: _ -> if !in_par then stat "ev_skipped" 1
           | _ when !in_par -> ()
           | _ ->
             (* any other operation outside a parallel block changes the table without being logged *)
